@@ -228,6 +228,7 @@ def history_independence(chk: core.Check, tier: str, seed: int) -> None:
                 if rng.random() < 0.1:
                     outcome(env, "$[?match(@.s, ", docs[k])          # a failed compilation in between
     recs = [{"op": "repeat", "q": core.enc_text(q), "doc": edocs[k], "results": res} for (q, k), res in results.items()]
+    recs += common.stream_records(jp, rounds=12 if tier == "quick" else 100)
     for r in recs:
         chk.nontrivial.add(("repeat", tuple(r["q"]), str(r["doc"])[-40:]))
     chk.notes["history_independence_records"] = len(recs)
